@@ -30,7 +30,7 @@ def gen_type(rng, depth=0, allow_ann=True):
         return ("ann", gen_type(rng, depth, allow_ann=False))
     if depth >= 3 or r < 0.45:
         return ("leaf", rng.choice(list(LEAVES)))
-    k = rng.choice(["opt", "list", "dictv", "newtype", "list", "newtype", "union"])
+    k = rng.choice(["opt", "list", "dictv", "newtype", "list", "newtype", "union", "tuple", "ntuple", "tdict"])
     inner = gen_type(rng, depth + 1, allow_ann=True)
     if k == "opt" and (inner[0] in ("opt", "union") or (inner[0] == "ann" and inner[1][0] == "opt")):
         inner = ("leaf", "date")        # typing would flatten Optional[Optional[..]] / Optional[Union[..]]
@@ -45,6 +45,7 @@ class Term:
     """nodes of a type term in registry order, with the source text of every type object"""
 
     def __init__(self, t):
+        self.name_of = {}
         self.defs = []          # python source lines defining the type objects, innermost first
         self.nodes = []         # dicts: kind, ex (py name), or (py name or None), ann (py name or None), step (tstep to the next node)
         self.n = 0
@@ -75,6 +76,11 @@ class Term:
         return self._build_with_ann(t, ann_name, {})
 
     def _build_with_ann(self, t, ann_name, _):
+        name = self._build_with_ann2(t, ann_name)
+        self.name_of[id(t)] = name
+        return name
+
+    def _build_with_ann2(self, t, ann_name):
         kind = t[0]
         if kind == "leaf":
             name = self._name("L")
@@ -82,7 +88,8 @@ class Term:
             self.nodes.append({"kind": "leaf", "leaf": t[1], "ex": name, "or": None, "ann": ann_name, "step": None})
             return name
         inner = self._build(t[1], None)
-        name = self._name({"opt": "O", "list": "Q", "dictv": "M", "newtype": "N", "union": "U"}[kind])
+        name = self._name({"opt": "O", "list": "Q", "dictv": "M", "newtype": "N", "union": "U", "tuple": "T", "ntuple": "NTu",
+                           "tdict": "TDi"}[kind])
         if kind == "opt":
             self.defs.append(f"{name} = Optional[{inner}]")
             self.nodes.append({"kind": "opt", "ex": name, "or": None, "ann": ann_name, "step": "TOptional"})
@@ -92,6 +99,15 @@ class Term:
         elif kind == "dictv":
             self.defs.append(f"{name} = Dict[str, {inner}]")
             self.nodes.append({"kind": "dict", "ex": name, "or": "dict", "ann": ann_name, "step": "TElement"})
+        elif kind == "tuple":
+            self.defs.append(f"{name} = Tuple[{inner}, ...]")
+            self.nodes.append({"kind": "tuple", "ex": name, "or": "tuple", "ann": ann_name, "step": "TTupleItem"})
+        elif kind == "ntuple":
+            self.defs.append(f'{name} = NamedTuple("{name}", [("a", {inner})])')
+            self.nodes.append({"kind": "ntuple", "ex": name, "or": None, "ann": ann_name, "step": "TNamedField"})
+        elif kind == "tdict":
+            self.defs.append(f'{name} = TypedDict("{name}", {{"a": {inner}}})')
+            self.nodes.append({"kind": "tdict", "ex": name, "or": None, "ann": ann_name, "step": "TTypedKey"})
         elif kind == "union":
             # the observed value always belongs to the first member; the second member (int) never accepts it
             self.defs.append(f"{name} = Union[{inner}, int]")
@@ -110,6 +126,12 @@ class Term:
             return f"[{inner}]"
         if kind == "dictv":
             return '{"k": ' + inner + "}"
+        if kind == "tuple":
+            return f"({inner},)" if which == "value" else f"[{inner}]"
+        if kind == "ntuple":
+            return f"{self.name_of[id(t)]}({inner})" if which == "value" else f"[{inner}]"
+        if kind == "tdict":
+            return '{"a": ' + inner + "}"
         return inner
 
 
@@ -131,6 +153,9 @@ def gen_path_case(rng) -> dict:
     t = gen_type(rng)
     term = Term(t)
     links = [rng.choice(["field", "field_coll", "self_opt", "self_list"]) for _ in range(rng.choice([0, 1, 1, 2]))]
+    if "tuple" in {nd["or"] for nd in term.nodes}:
+        # Tuple[Self, ...] children would themselves be hit by a registration for `tuple`
+        links = ["self_opt" if x == "self_list" else x for x in links]
     ncls = 1 + sum(1 for x in links if is_cls_link(x))
     # the called class itself may lack ADD_DIALECT_SUPPORT: from_dict(..., dialect=D) is then accepted and ignored
     # (every generated from_dict has a `dialect` parameter), to_dict(dialect=D) would be a TypeError and is not called
@@ -196,7 +221,7 @@ def positions(term) -> list[int]:
     pos, out = 0, []
     for nd in term.nodes:
         out.append(pos)
-        if nd["step"] == "TElement":
+        if nd["step"] in ("TElement", "TTupleItem", "TNamedField", "TTypedKey"):
             pos += 1
     return out
 
@@ -247,6 +272,14 @@ def observe_path(d, out, orig, struct, builtin_leaf):
             if not isinstance(out, dict) or list(out) != ["k"]:
                 return {"other": repr(out)[:80]}
             out, orig, pos = out["k"], orig["k"], pos + 1
+        elif kind in ("tuple", "ntuple"):
+            if not isinstance(out, (list, tuple)) or len(out) != 1:
+                return {"other": repr(out)[:80]}
+            out, orig, pos = out[0], orig[0], pos + 1
+        elif kind == "tdict":
+            if not isinstance(out, dict) or list(out) != ["a"]:
+                return {"other": repr(out)[:80]}
+            out, orig, pos = out["a"], orig["a"], pos + 1
         elif kind == "leaf":
             if type(out) is type(builtin_leaf) and out == builtin_leaf:
                 return {"builtin": True}
